@@ -251,6 +251,10 @@ func (w *Walker) parseRoutingRule(ctx dae_config.IRoutingRuleContext) *RoutingRu
 		outbound = &Function{Name: literal.GetText()}
 	} else if f := outboundExpr.FunctionPrototype(); f != nil {
 		outbound = w.parseFunctionPrototype(f.(*dae_config.FunctionPrototypeContext), nil)
+		if outbound == nil {
+			// The error (e.g. empty parameter list) has been reported.
+			return nil
+		}
 	} else {
 		panic("unknown outboundExpr")
 	}
